@@ -1,74 +1,38 @@
 (* C20/Main.v — the theorems of C20 in the form in which Properties/C20.v states them. *)
 From ZV Require Import Base.Bytes Base.Res C19.Broadcast C19.BroadcastFacts C20.Model C20.Lemmas C20.Steps C20.Inv C20.Proofs C20.Count
-  C20.Progress C20.Share C20.Refute.
+  C20.Arcs C20.Progress C20.Share C20.Examples.
 From Coq Require Import Lia.
-
-Definition has_clone (tr : list label) : bool := existsb (fun l => match l with LClone _ _ => true | _ => false end) tr.
-
-Lemma no_clone_iff tr : has_clone tr = false <-> no_clone tr.
-Proof.
-  unfold has_clone, no_clone. split.
-  - intros H a b Hin. assert (existsb (fun l => match l with LClone _ _ => true | _ => false end) tr = true); [|congruence].
-    apply existsb_exists. exists (LClone a b). split; [assumption | reflexivity].
-  - intros H. destruct (existsb _ tr) eqn:E; [|reflexivity]. apply existsb_exists in E. destruct E as (l & Hin & Hl). destruct l; try discriminate.
-    destruct (H _ _ Hin).
-Qed.
-
-Lemma in_r1_false s sid : (forall c, lookup (drops s) sid <> Some (R1 c)) -> in_r1 s sid = false.
-Proof. unfold in_r1. intros H. destruct (lookup (drops s) sid) as [[|c]|]; try reflexivity. destruct (H c eq_refl). Qed.
-
-Lemma in_r1_nil s sid : drops s = [] -> in_r1 s sid = false.
-Proof. unfold in_r1. now intros ->. Qed.
 
 Section Main.
 Variable matches : nat -> msg -> bool.
 Notation reach := (Model.reach matches).
 Notation step := (Model.step matches).
 
-Theorem delivery_partial tr s sid st : reach tr s -> has_clone tr = false ->
-  lookup (streams s) sid = Some st -> reader s <> RStopped ->
+Theorem delivery_full tr s sid st : reach tr s -> lookup (streams s) sid = Some st -> reader s <> RStopped ->
   msgs (s_got st) ++ msgs (unread (chan_at s (s_ch st)) sid) =
   filter (accepts matches (skey st)) (skipn (s_from st) (firstn (seen s (s_ch st)) (incoming s))).
-Proof.
-  intros Hr Hc Hl Hrd. apply (delivery_no_clone matches tr s sid st); try assumption; [now apply no_clone_iff|].
-  apply in_r1_nil. exact (drops_nil matches tr s Hr).
-Qed.
+Proof. exact (delivery_all matches tr s sid st). Qed.
 
-Theorem delivery_partial_quiescent tr s sid st : reach tr s -> has_clone tr = false ->
-  lookup (streams s) sid = Some st -> reader s = RIdle -> unread (chan_at s (s_ch st)) sid = [] ->
+Theorem delivery_full_quiescent tr s sid st : reach tr s -> lookup (streams s) sid = Some st ->
+  reader s = RIdle -> unread (chan_at s (s_ch st)) sid = [] ->
   msgs (s_got st) = filter (accepts matches (skey st)) (skipn (s_from st) (incoming s)).
 Proof.
-  intros Hr Hc Hl Hrd Hu. assert (Hns : reader s <> RStopped) by congruence.
-  pose proof (delivery_partial _ _ _ _ Hr Hc Hl Hns) as H. rewrite Hu in H. cbn in H. rewrite app_nil_r in H.
+  intros Hr Hl Hrd Hu. assert (Hns : reader s <> RStopped) by congruence.
+  pose proof (delivery_full _ _ _ _ Hr Hl Hns) as H. rewrite Hu in H. cbn in H. rewrite app_nil_r in H.
   unfold seen, pending_on in H. rewrite Hrd, Nat.sub_0_r, firstn_all in H. exact H.
 Qed.
 
-Theorem registered tr s sid st : reach tr s -> has_clone tr = false -> lookup (streams s) sid = Some st ->
+Theorem registered tr s sid st : reach tr s -> lookup (streams s) sid = Some st ->
   In (skey st, s_ch st) (senders s) \/ reader s = RStopped.
-Proof.
-  intros Hr Hc Hl. apply (registered_live matches tr s sid st); try assumption; [now apply no_clone_iff|].
-  apply in_r1_nil. exact (drops_nil matches tr s Hr).
-Qed.
+Proof. exact (registered_live matches tr s sid st). Qed.
 
-(* the holders of a rule: its streams, the remove_match calls (queued by Drop or started by async_drop) that have not yet taken
-   `subscriptions`, and the add_match call that is creating the entry *)
-Definition holders_of (s : sys) (r : nat) : nat :=
-  cnt (fun p => rule_is r (snd p)) (streams s) + cnt (holds_task r) (tasks s) + cnt (holds_add r) (adds s).
-
-Lemma holders_of_eq s r : drops s = [] -> holders s r = holders_of s r.
-Proof.
-  intros Hd. unfold holders, holders_of. f_equal. f_equal. apply cnt_ext. intros [sid st] _. unfold holds_stream. cbn [fst snd].
-  rewrite (in_r1_nil s sid Hd). cbn [negb]. apply andb_true_r.
-Qed.
-
-Theorem share_partial tr s : reach tr s -> has_clone tr = false ->
-  (forall r, match lookup (subs s) r with Some e => e_ref e = holders_of s r | None => holders_of s r = 0 end) /\
-  (forall sid st r e, lookup (streams s) sid = Some st -> s_rule st = Some r -> lookup (subs s) r = Some e -> s_ch st = e_ch e).
-Proof.
-  intros Hr Hc. pose proof (drops_nil matches tr s Hr) as Hd. destruct (share_reach matches tr s Hr (proj1 (no_clone_iff tr) Hc)) as [C G]. split.
-  - intros r. rewrite <- (holders_of_eq s r Hd). apply C.
-  - intros sid st r e Hl Hru He. eapply G; try eassumption. now apply in_r1_nil.
-Qed.
+Theorem share_full tr s : reach tr s ->
+  (forall r, match lookup (subs s) r with Some e => e_ref e = holders s r | None => holders s r = 0 end) /\
+  (forall sid st r e, lookup (streams s) sid = Some st -> s_rule st = Some r -> lookup (subs s) r = Some e -> s_ch st = e_ch e) /\
+  (forall sid st r, lookup (streams s) sid = Some st -> s_rule st = Some r ->
+     exists i ms, idx_of (arcs s) sid = Some i /\ nth_error (arcs s) i = Some (r, ms)) /\
+  (forall r ms sid, In (r, ms) (arcs s) -> In sid ms -> exists st, lookup (streams s) sid = Some st /\ s_rule st = Some r).
+Proof. intros Hr. destruct (share_reach_full matches tr s Hr) as (C & G & _ & [G1 G2]). repeat split; assumption. Qed.
 
 (* back-pressure, at full strength: a reader waiting for room waits behind a stream that the application can poll *)
 Theorem progress_full tr s it c todo : reach tr s -> reader s = RPush it (c :: todo) -> try_push it (chan_at s c) = PFull ->
@@ -79,28 +43,6 @@ Theorem no_async_drop tr s sid : reach tr s -> drops s = [] /\ step (LDropSubs s
 Proof. intros Hr. split; [exact (drops_nil matches tr s Hr) | exact (async_drop_labels_dead matches tr s sid Hr)]. Qed.
 
 End Main.
-
-(* ---- the full statements fail on the code as it is ---- *)
-Theorem delivery_full_refuted :
-  ~ (forall matches tr s sid st, Model.reach matches tr s ->
-       lookup (streams s) sid = Some st -> reader s <> RStopped ->
-       msgs (s_got st) ++ msgs (unread (chan_at s (s_ch st)) sid) =
-       filter (accepts matches (skey st)) (skipn (s_from st) (firstn (seen s (s_ch st)) (incoming s)))).
-Proof.
-  intros H. destruct clone_misses as (Hr & st & Hl & Hd & Hrd & _ & Hu & Hf & Hi & Ha & Hg).
-  assert (Hns : reader clone_state <> RStopped) by (rewrite Hrd; discriminate).
-  specialize (H all_match clone_trace clone_state 0 st Hr Hl Hns). rewrite Hu, Hg, Hf, Hi in H. unfold seen, pending_on in H. rewrite Hrd, Hi in H.
-  cbn [length Nat.sub firstn skipn filter msgs flat_map app] in H. rewrite Ha in H. discriminate.
-Qed.
-
-Theorem share_full_refuted :
-  exists tr s r e, Model.reach all_match tr s /\ lookup (subs s) r = Some e /\ e_ref e <> holders_of s r.
-Proof.
-  pose (tr := [LAddStart 0 0 (Some 2); LAddCheck 0; LAddSubs 0; LAddSender 0; LClone 0 1]).
-  destruct (Model.exec all_match tr init) as [s|] eqn:E; [|vm_compute in E; discriminate].
-  exists tr, s, 0. vm_compute in E. inversion E; subst s. eexists. split; [apply exec_reach; vm_compute; reflexivity|]. split; [vm_compute; reflexivity|].
-  vm_compute. discriminate.
-Qed.
 
 (* ---- non-vacuity: a history with two rules and three messages, rule r matches the messages whose member is r ---- *)
 Definition by_member : nat -> msg -> bool := fun r m => Nat.eqb (m_member m) r.
@@ -117,11 +59,11 @@ Definition ex_state : sys := match Model.exec by_member ex_trace init with Some 
 Lemma ex_exec : Model.exec by_member ex_trace init = Some ex_state.
 Proof. vm_compute. reflexivity. Qed.
 Lemma ex_facts :
-  Model.reach by_member ex_trace ex_state /\ has_clone ex_trace = false /\ reader ex_state = RIdle /\
+  Model.reach by_member ex_trace ex_state /\ reader ex_state = RIdle /\
   incoming ex_state = [sg 1 1; sg 2 0; sg 3 1] /\
   (exists st, lookup (streams ex_state) 0 = Some st /\ s_from st = 0 /\ s_got st = [IMsg (sg 1 1); IMsg (sg 3 1)]) /\
   (exists st, lookup (streams ex_state) 1 = Some st /\ s_from st = 2 /\ s_got st = [IMsg (sg 3 1)]) /\
-  lookup (subs ex_state) 1 = Some {| e_ref := 2; e_ch := 2 |}.
+  lookup (subs ex_state) 1 = Some {| e_ref := 2; e_ch := 2 |} /\ holders ex_state 1 = 2.
 Proof.
   split; [apply exec_reach, ex_exec|]. vm_compute. repeat split; try reflexivity; eexists; repeat split; reflexivity.
 Qed.
